@@ -360,7 +360,7 @@ int __wrap_epoll_ctl(int epfd, int op, int fd, struct epoll_event* ev) {
   case EPOLL_CTL_DEL: if (it == e->interest.end()) { errno = ENOENT; return -1; } e->interest.erase(it); break;
   default: errno = EINVAL; return -1;
   }
-  logEvent("epoll_ctl", op, f->id, ev ? ev->events : 0);
+  logEvent("epoll_ctl", op, f->id, (ev && op != EPOLL_CTL_DEL) ? ev->events : 0);   // the event argument of DEL is ignored (libnstd passes it uninitialised)
   wakeAllNet();
   return 0;
 }
